@@ -32,6 +32,22 @@ def gen_ops(tier, rng):
     for k in range(nsub):
         for q in range(nparams):
             ops.append('app S%d p%d' % (k, q))
+    # several general substitutions made back to back BEFORE any of them is bound, then bound alternately: each has exactly its own bindings
+    for _ in range(6 if tier == 'quick' else 200):
+        group = []
+        for _ in range(rng.randint(2, 4)):
+            ops.append('gen')
+            group.append(nsub)
+            nsub += 1
+        for _ in range(rng.randint(1, 12)):
+            k = rng.choice(group)
+            ops.append('bind S%d p%d %s' % (k, rng.randrange(nparams), val()))
+            for j in group:
+                for q in rng.sample(range(nparams), 4):
+                    ops.append('app S%d p%d' % (j, q))
+        for j in group:
+            for q in range(nparams):
+                ops.append('app S%d p%d' % (j, q))
     nhist = 40 if tier == 'quick' else 1500
     for h in range(nhist):
         pool = rng.randint(1, nparams)
